@@ -350,13 +350,14 @@ def main():
     evaluations = 0
     distinct = set()
     nontrivial = set()
+    thm_instances = 0
     samples = []
     hist_all = {}
     viols, diffs, knowns, bads = [], [], {}, []
     engine_errors = []
 
     def absorb(results, engine):
-        nonlocal evaluations
+        nonlocal evaluations, thm_instances
         for c, v in results:
             evaluations += 1
             k = hashlib.sha1(case_key(c).encode()).hexdigest()
@@ -364,6 +365,8 @@ def main():
             verdict, rest = verdict_of(v)
             if not (rest and rest[-1] == "trivial"):
                 nontrivial.add(k)
+            if verdict == "ok" and rest and rest[-1] == "thm":
+                thm_instances += 1
             if verdict == "viol":
                 tags = rest[0].split(",") if rest else []
                 if rest and pid not in tags and all(re.fullmatch(r"C\d+", t) for t in tags):
@@ -468,6 +471,7 @@ def main():
                                     "non-trivial = not flagged trivial by the engine's rule"),
             "samples": samples[:8], "input_distribution": hist_all,
             "known_findings_reproduced": {k: len(v) for k, v in knowns.items()},
+            "cases_meeting_whole_run_theorem_hypotheses": thm_instances,
             "violations_of_other_properties_seen": len(other_prop_viols),
             "broken": broken, "model_impl_disagreements": len(diffs), "widened_search_cases": widened,
         },
